@@ -128,6 +128,88 @@ func c16Monitor(run *ev.Run, logs []wh.LogCfg) func(*wh.Step) {
 	}
 }
 
+// c16Setup mounts the read API on a router and builds the clients.
+func c16Setup(e *wh.Env) {
+	r := mux.NewRouter()
+	ihttp.NewServer(e.W).RegisterHandlers(r)
+	e.X["router"] = http.Handler(r)
+	base, _ := url.Parse("http://witness.test/")
+	for _, fr := range c16Framings {
+		e.X["client:"+fr] = whttp.NewWitness(base, &http.Client{Transport: handlerTransport{r, fr}})
+	}
+}
+
+// c16ManyLogs: the log list as the number of logs grows one accepted first
+// submission at a time up to 130 (page sizes, batch limits: 32/33, 64/65,
+// 100/101, 128/129 are all crossed): after EVERY acceptance the decoded list
+// is exactly the set of logs accepted so far, and each log's checkpoint reads
+// back exactly (all of them every 16th step and at the end, the newest one
+// every step).
+func c16ManyLogs(run *ev.Run, u *uni.U, gen *wh.CPGen, store string, setup func(*wh.Env)) {
+	const total = 130
+	var many []wh.LogCfg
+	for i := 0; i < total; i++ {
+		k := u.K1
+		if i%3 == 1 {
+			k = u.K2
+		}
+		many = append(many, wh.LogCfg{Origin: fmt.Sprintf("verif.example/many/%03d", i), Key: k})
+	}
+	e := wh.NewEnv(u, wh.Config{Store: store, Logs: many})
+	defer e.Close()
+	setup(e)
+	router := e.X["router"].(http.Handler)
+	cl := e.X["client:"].(whttp.Witness)
+	want := map[string]string{}
+	for i, l := range many {
+		cp, meta := gen.Get(l, u.Main, 1+i%4, "plain")
+		out := e.Do(wh.Req{LogID: l.ID(), CP: cp, Meta: meta, Label: "first use"})
+		if out.Class != wh.OK {
+			ev.Internal("C16 many logs: first use of log %d refused: %v", i, out.Err)
+		}
+		want[l.ID()] = string(e.Stored(l.ID()))
+		rep := map[string]any{"kind": "many-logs", "store": store, "logs": i + 1}
+		code, body, _ := c16Get(router, "/witness/v0/logs")
+		var list []string
+		if code != 200 || json.Unmarshal([]byte(body), &list) != nil {
+			run.Report(fmt.Sprintf("log-list status=%d logs=many", code), fmt.Sprintf("%s store, %d logs: GET logs returned %d %q", store, i+1, code, short(body)), rep)
+			return
+		}
+		sort.Strings(list)
+		var ids []string
+		for id := range want {
+			ids = append(ids, id)
+		}
+		sort.Strings(ids)
+		run.Add("many_logs_list_reads", 1)
+		if strings.Join(list, ",") != strings.Join(ids, ",") {
+			run.Report("log-list-content many-logs store="+store, fmt.Sprintf("%s store: with %d logs accepted the log list has %d entries (%d distinct) and is not the accepted set", store, i+1, len(list), len(uniq(list))), rep)
+			return
+		}
+		check := []string{l.ID()}
+		if (i+1)%16 == 0 || i == total-1 {
+			check = ids
+		}
+		for _, id := range check {
+			code, body, _ := c16Get(router, "/witness/v0/logs/"+id+"/checkpoint")
+			got, err := cl.GetLatestCheckpoint(context.Background(), id)
+			run.Add("many_logs_checkpoint_reads", 1)
+			if code != 200 || body != want[id] || err != nil || string(got) != want[id] {
+				run.Report("get-checkpoint many-logs store="+store, fmt.Sprintf("%s store, %d logs: checkpoint of %.8s read back as status %d / client err %v, bytes exact: %v / %v", store, i+1, id, code, err, body == want[id], string(got) == want[id]), rep)
+				return
+			}
+		}
+	}
+}
+
+func uniq(l []string) map[string]bool {
+	m := map[string]bool{}
+	for _, x := range l {
+		m[x] = true
+	}
+	return m
+}
+
 // c16OddIDs: requests naming unknown and syntactically odd IDs never yield 200.
 func c16OddIDs(run *ev.Run, e *wh.Env, logs []wh.LogCfg) {
 	router := e.X["router"].(http.Handler)
@@ -217,15 +299,7 @@ func c16(tier string) int {
 	lb := wh.LogCfg{Origin: logB() + " 100%sure %25 %d \u2014 caf\u00e9", Key: u.K2}
 	lc := wh.LogCfg{Origin: logC(), Key: u.K1}
 	logs := []wh.LogCfg{la, lb, lc}
-	setup := func(e *wh.Env) {
-		r := mux.NewRouter()
-		ihttp.NewServer(e.W).RegisterHandlers(r)
-		e.X["router"] = http.Handler(r)
-		base, _ := url.Parse("http://witness.test/")
-		for _, fr := range c16Framings {
-			e.X["client:"+fr] = whttp.NewWitness(base, &http.Client{Transport: handlerTransport{r, fr}})
-		}
-	}
+	setup := c16Setup
 	cpB, mB := gen.Get(lb, u.Main, 2, "plain")
 	prelude := []wh.Req{{LogID: lb.ID(), CP: cpB, Meta: mB, Label: "prelude: first use of log B"}}
 	states, trans := 0, int64(0)
@@ -260,6 +334,7 @@ func c16(tier string) int {
 		cpA, mA := gen.Get(la, u.Main, 3, "plain")
 		e.Do(wh.Req{LogID: la.ID(), CP: cpA, Meta: mA})
 		c16OddIDs(run, e, logs)
+		c16ManyLogs(run, u, gen, store, setup)
 		e.Close()
 	}
 	for _, k := range []string{"stored->200", "empty->404"} {
@@ -273,6 +348,6 @@ func c16(tier string) int {
 	run.Set("traces_validated_against_impl", trans)
 	run.Set("evaluations", trans)
 	run.Set("exhaustive", true)
-	run.Set("rule", fmt.Sprintf("explicit-state BFS over a three-log witness (IDs from the repository's origin-to-ID function; log B holds a checkpoint, log C never gets one and receives refused submissions), sizes 0..%d, checkpoint shapes plain / two extension lines (with %% and non-ASCII) / 17 KiB, 70 KiB and (thorough) 900 KiB of extension lines, both stores; after EVERY transition, through the router built by RegisterHandlers and through client/http.Witness (answers framed without Content-Length, with it, and with it arriving one byte per Read): GET checkpoint of each log = 200 + exactly the stored bytes or 404 iff none, client returns the bytes / os.ErrNotExist, the log list decodes to exactly the logs with an accepted update; plus 20 unknown / odd IDs that must never be answered with a stored checkpoint. distinct_nontrivial = distinct (store, state before, state after)", n))
+	run.Set("rule", fmt.Sprintf("explicit-state BFS over a three-log witness (IDs from the repository's origin-to-ID function; log B holds a checkpoint, log C never gets one and receives refused submissions), sizes 0..%d, checkpoint shapes plain / two extension lines (with %% and non-ASCII) / 17 KiB, 70 KiB and (thorough) 900 KiB of extension lines, both stores; after EVERY transition, through the router built by RegisterHandlers and through client/http.Witness (answers framed without Content-Length, with it, and with it arriving one byte per Read): GET checkpoint of each log = 200 + exactly the stored bytes or 404 iff none, client returns the bytes / os.ErrNotExist, the log list decodes to exactly the logs with an accepted update; plus 20 unknown / odd IDs that must never be answered with a stored checkpoint. In addition, on both stores, 130 logs accepted one at a time: after every acceptance the list is exactly the accepted set and the checkpoints read back exactly. distinct_nontrivial = distinct (store, state before, state after)", n))
 	return run.Finish()
 }
